@@ -694,6 +694,10 @@ def generate(ctx, budget):
         key, nonce = _key(rng), _nonce(rng)
         op = ["apply", "applyinplace", "twice", "apply", "inplacetwice", "applyinplace"][i % 6]
         cases.append(Case(ops=[f"{op} {key} {nonce} {ctr} gen:{n}:{rng.getrandbits(48)}"], tag="long"))
+    if ctx.tier == "quick" and budget > BUDGET["quick"]:
+        # enlarged search (an obligation or the tie is broken): spend the ~11 s on one > 4 MiB call as well
+        cases.insert(0, Case(ops=[f"apply {_key(rng)} {_nonce(rng)} {2 ** 32 - 70000} gen:{4 * 1024 * 1024 + 133}:{rng.getrandbits(48)}"],
+                             tag="huge"))
     if ctx.tier == "thorough":
         # one call over more than 65536 blocks (4 MiB): a block index narrower than 32 bits wraps inside the call.
         # ~11 s / 0.5 GB (4 MiB) and ~22 s / 1 GB (8 MiB) in the Lean driver, hence thorough only.
@@ -743,6 +747,7 @@ def post(ctx, results):
                      "(each temporary CryptoManager swaps in its own random key; theorem C09.manager_zero_key)")
 
 
+BUDGET = {"quick": 1500, "thorough": 40000}
 VECTOR_THEOREMS = ["EphVerif.Spec.ChaCha.Vectors." + n for n in (
     "quarterRound_2_1_1", "qrAt_2_2_1", "initState_2_3_2", "rounds_2_3_2", "blockState_2_3_2", "block_2_3_2",
     "sunscreen_bytes", "keystream1_2_4_2", "keystream2_2_4_2", "encrypt_2_4_2", "decrypt_2_4_2")]
@@ -757,7 +762,7 @@ def spec() -> Spec:
         generate=generate,
         extract=extract,
         nontrivial=nontrivial,
-        budget={"quick": 1500, "thorough": 40000},
+        budget=BUDGET,
         search_budget={"quick": 3000, "thorough": 40000},
         extra_theorems=VECTOR_THEOREMS,
         divergence_is_violation=True,
